@@ -120,6 +120,7 @@ def warm():
     others = ["fx/modern_ms/headings.docx", "fx/modern_ms/mwe.xlsx", "fx/mails/basic_email.eml", "fx/archives/test_archive.7z",
               "fx/archives/sample.zip", "fx/html/sample.html", "fx/open_office/sample_document.odt", "fx/epub/sample.epub",
               "fx/legacy_ms/mwe.xls", "gen/a.tar.gz", "gen/a.rtf", "fx/modern_ms/pptx_table.pptx", "gen/att.eml",
+              "gen/a.html", "gen/b.html", "gen/c.html", "fx/html/large_complex.html", "gen/a.mhtml", "gen/ragged.xlsx", "gen/a.docx",
               "var/macosx.zip", "var/plain.zip", "var/macosx.tar", "var/corrupt36.7z", "var/corrupt40.7z", "var/corrupt60.7z"]
     others += [n for n in docs if n.startswith("var/corrupt") and n not in others]
     _pool = _pdfs + [o for o in others if o in docs]
@@ -350,6 +351,7 @@ def run_case(case: dict) -> dict:
             out = []
             for n in docs:
                 d = _extract_digest(n, _docs[n])
+                gc.collect()  # deterministic point: lets object addresses be reused, as they would be under the cyclic GC
                 log.ev("extracted", ti, n, d)
                 out.append((n, d))
             return out
